@@ -44,10 +44,55 @@ Proof.
   rt_eq.
 Qed.
 
+(* ------------------------------------------------------------------ laguer
+   The model returns a record (final iterate, exit reason, value of *iterations, trace fields); the source returns the three
+   `&mut` operands (a -- never assigned --, x, iterations).  ERASURE: the regenerated function is the model with the exit
+   reason and the trace fields projected away. *)
+Lemma laguer_loop_eq (a : list K) (m : nat) (x0 : K) (fin0 : bool)
+      (b1 : nat -> K * nat -> res (K * nat + list K * K * nat)) :
+  (forall iter x its, b1 iter (x, its) = let* o := laguer_step RA a m iter x in
+        Ok (match o with inl _ => inr (a, x, iter) | inr x' => inl (x', iter) end)) ->
+  forall n lo x its, (n = 0 -> its = lo - 1) ->
+  (let* o := for_ret_from n lo b1 (x, its) in
+   match o with inl (x', its') => Ok (a, x', its') | inr r => Ok r end)
+  = (let* l := laguer_loop RA a m x0 fin0 n lo x in Ok (a, lx l, liters l)).
+Proof.
+  intros Hb. induction n as [|n IH]; intros lo x its Hn; cbn [for_ret_from laguer_loop bind].
+  - rewrite (Hn eq_refl). reflexivity.
+  - rewrite Hb, !bind_assoc. destruct (laguer_step RA a m lo x) as [[[why tok]|x']|k]; cbn [bind]; [reflexivity| |reflexivity].
+    apply IH. intros _. lia.
+Qed.
+
+Ltac lg_step :=
+  match goal with
+  | |- ?a = ?b => reflexivity
+  | |- context [bind (bind _ _) _] => rewrite !bind_assoc
+  | |- context [bind (Ok _) _] => rewrite !bind_Ok_l
+  | |- context [if ?c then Ok ?a else Ok ?b] => rewrite (if_ok c a b)
+  | |- bind ?e _ = bind ?e' _ => unify e e'; apply bind_ext; intros ?
+  | |- context [match ?p with pair _ _ => _ end] => is_var p; destruct p
+  | |- context [bind (if ?c then _ else _) _] => destruct c eqn:?
+  | |- (if ?c then _ else _) = _ => destruct c eqn:?
+  | |- _ = (if ?c then _ else _) => destruct c eqn:?
+  | |- Ok _ = Ok _ => f_equal
+  | |- context [if ?c then _ else _] => destruct c eqn:?
+  end.
+
+Lemma src_laguer (a : list K) (x : K) (its : nat) :
+  s_laguer RA a x its = let* l := laguer RA a x in Ok (a, lx l, liters l).
+Proof.
+  unfold s_laguer, laguer, for_ret. rewrite bind_assoc. apply bind_ext; intros m.
+  change (10 * 8 - 1) with (MAXIT - 1).
+  apply laguer_loop_eq; [|unfold MAXIT; cbv; discriminate].
+  intros iter y n. unfold laguer_step, horner3, gtb. cbv delta [LAGUER_MT LAGUER_MR]. cbv zeta. unfold rlit.
+  repeat lg_step.
+Qed.
+
 Definition model_is_source_Roots : Prop :=
   (forall a b c : K, s_quadratic_solve RA a b c = quadratic_solve RA a b c) /\
-  (forall a b c d : K, s_cubic_solve RA a b c d = cubic_solve RA a b c d).
+  (forall a b c d : K, s_cubic_solve RA a b c d = cubic_solve RA a b c d) /\
+  (forall (a : list K) (x : K) (its : nat), s_laguer RA a x its = let* l := laguer RA a x in Ok (a, lx l, liters l)).
 Lemma model_is_source_Roots_lemma : model_is_source_Roots.
-Proof. exact (Coq.Init.Logic.conj src_quadratic_solve src_cubic_solve). Qed.
+Proof. exact (Coq.Init.Logic.conj src_quadratic_solve (Coq.Init.Logic.conj src_cubic_solve src_laguer)). Qed.
 
 End SrcEqRoots.
